@@ -93,6 +93,7 @@ type c09Table struct {
 }
 
 func runC09(r *core.Run) {
+	racePass(r, "race-align", "Global and Local on shared sequences and a shared matrix (gap-open 0, Levenshtein, BLOSUM62)")
 	firstCallClause(r, "align.Global", "align.Local")
 	L2 := core.Pick(r, 5, 8)
 	bruteMax := core.Pick(r, 3, 4)
@@ -228,6 +229,7 @@ func matrixAlphabet(m align.SubstitutionMatrix) []byte {
 }
 
 func runC10(r *core.Run) {
+	racePass(r, "race-align-affine", "Global and Local with three gap-open matrices on eight input pairs of different sizes; each goroutine works through the pairs in its own order; every result is compared with what the same call returned when it ran alone")
 	firstCallClause(r, "align.Global", "align.Local")
 	L2 := core.Pick(r, 6, 8)
 	bruteMax := core.Pick(r, 3, 4)
